@@ -131,9 +131,16 @@ def target_invocations():
         for item, accept in tab.items():
             if accept is None:
                 continue
+            # alone, and (for options that must be rejected) before / after every option the target does accept
+            combos = [[opt]]
+            if not accept:
+                for other, tab2 in TARGETS.items():
+                    if tab2.get(item) and other != opt and other.split(" ")[0] != opt.split(" ")[0]:
+                        combos += [[opt, other], [other, opt]]
             for variant in ("entrait", "entrait_export"):
                 lead = "Tr, " if item in ("fn", "mod") else ""
-                inv.append(dict(item=item, attr=lead + opt, variant=variant, feature=False, accept=accept, family="targets"))
+                for c in combos:
+                    inv.append(dict(item=item, attr=lead + ", ".join(c), variant=variant, feature=False, accept=accept, family="targets"))
     return inv
 
 
